@@ -1,3 +1,5 @@
 import PyhfGen.Interp
+import PyhfGen.InterpMulti
 import PyhfGen.Infer
 import PyhfGen.Model
+import PyhfGen.Prob
